@@ -2,7 +2,6 @@
             pub(super) fn pow(ring: &$ring, raw: $raw, exp: &UBig) -> $raw
             /*@
                 requires p_wf(ring), p_ok(ring, raw),
-                    p_m(ring) >= 2 || exp.v() != 0,       // DEFECT REGION EXCLUDED (see pow_word): pow(0) in the ring of modulus 1
                 ensures p_ok(ring, ret),
                     // C13: reduce(a).pow(e) == reduce(a^e) for every exponent, residue in [0, m)
                     p_res(ring, ret) == ipow(p_res(ring, raw), exp.v()) % p_m(ring),
